@@ -142,7 +142,7 @@ def pos(name, fn):
 
 
 def serializer_case(ser, sername, a, v):
-    tr = {"ser": sername, "v": norm_sent(a), "comp": False, "level": "serializer", "hang": False, "pos": []}
+    tr = {"ser": sername, "v": norm_sent(a), "comp": False, "level": "serializer", "hang": False, "pos": [], "bsame": True, "ssame": True}
     seen = {}
 
     def call():
@@ -180,6 +180,15 @@ def make_echo(record):
         def stream(self, a):
             record["seen_stream"] = a
             return iter([a])
+
+        # result-only positions: the value is handed to the object in-process, so that only the way back is exercised
+        @P.expose
+        def give(self):
+            return record["orig"]
+
+        @P.expose
+        def stream_give(self):
+            return iter([record["orig"]])
     return Echo
 
 
@@ -202,7 +211,8 @@ def network_cases(jobs):
         for sername, a, v, comp, pad in jobs:
             sc.set_budget(30000)
             config.COMPRESSION = comp
-            tr = {"ser": sername, "v": norm_sent(a), "comp": comp, "level": "network", "hang": False, "pos": [], "sym": True, "idem": True, "exact": True}
+            tr = {"ser": sername, "v": norm_sent(a), "comp": comp, "level": "network", "hang": False, "pos": [], "sym": True, "idem": True, "exact": True,
+                  "bsame": True, "ssame": True}
             try:
                 p = proxies.get(sername)
                 if p is None or p._pyroConnection is None:
@@ -229,18 +239,21 @@ def network_cases(jobs):
                     tr["sym"] = all(same(x, got) for x in (seen[0], seen[2])) and (seen_n is None or same(nested_val, got))
                     tr["exact"] = same(got, v) and same(seen[0], v)
                     # batch result and streamed item
+                    record["orig"] = v
+
                     def batch():
                         b = P.BatchProxy(p)
-                        b.echo(v)
+                        b.give()
                         return list(b())[0]
                     pb, gb, okb = pos("batch", batch)
                     tr["pos"].append(pb)
 
                     def stream():
-                        return list(p.stream(v))[0]
+                        return list(p.stream_give())[0]
                     ps, gs, oks = pos("stream", stream)
                     tr["pos"].append(ps)
-                    tr["sym"] = tr["sym"] and okb and oks and same(gb, got) and same(gs, got)
+                    tr["bsame"] = bool(okb and same(gb, got))
+                    tr["ssame"] = bool(oks and same(gs, got))
                     p2, g2, ok2 = pos("again", lambda: p.echo(got))
                     tr["idem"] = ok2 and same(g2, got)
                 elif ok != (seen is not None):
